@@ -859,6 +859,9 @@ impl Scenario for Lim {
                     let t = e.ka_timeout;
                     match self.end_at {
                         // one class for all client values whose 1.5x does not fit the library's 16-bit second timers
+                        // (known findings C19-3/4: the value is clipped to 65535 s. An expiry before that point is a different
+                        // defect - seeded change C19_r7 let the 1.5x computation wrap around - and has its own class)
+                        Some(at) if at < 2 * 65535 && t > 65535 => return bad(self, "keepalive-early", &format!("1.5x client value above 65535s, expired after {}s already", at / 2)),
                         Some(at) if at < 2 * t && t > 65535 => return bad(self, "keepalive-early", "1.5x client value above 65535s"),
                         Some(at) if at < 2 * t => return bad(self, "keepalive-early", &format!("{t}s")),
                         Some(_) if !stops.iter().any(|s| s.contains("KeepAliveTimeout")) => return bad(self, "keepalive-wrong-reason", ""),
